@@ -4,7 +4,6 @@ plain descriptions, access histories over a tree of Buses, fault schedules.
 Everything here is plain Python (picklable); real objects are built by the monitor."""
 from sfmon.gen import frames as F
 from sfmon.gen import labels as L
-from sfmon.gen import values as V
 
 FORMATS = ['zip_pickle', 'zip_csv', 'zip_tsv', 'sqlite']
 ALL_FORMATS = FORMATS + ['zip_parquet', 'xlsx', 'hdf5']
